@@ -24,6 +24,7 @@ pub mod c17;
 pub mod c18;
 pub mod c19;
 pub mod normfam;
+pub mod tzshape;
 pub mod c20;
 
 pub fn run(prop: &str, cfg: &Cfg) -> Outcome {
